@@ -21,8 +21,8 @@ CLASSES = ["array", "linked_list", "dlinked_list"]
 INIT = {"a": [], "b": {"live": False, "s": []}, "it": -1, "held": 0}
 SCOPE = {"quick": (3, 2), "thorough": (5, 3)}      # NK, NV of the cfg files
 BIG = (253, 7)                                      # NK, NV of direction B: keys 0..254 get first/last bytes 1..255
-SWEEP_SIZES = {"quick": [8, 16, 32, 64, 128, 256, 512, 1024], "thorough": [8, 16, 32, 64, 128, 256, 512, 1024, 2048, 4096, 8192]}
-SWEEP_CFG = {"quick": ("MapDictSweep.cfg", 2400), "thorough": ("MapDictSweepBig.cfg", 16800)}   # cfg, NK
+SWEEP_SIZES = {"quick": [8, 16, 32, 64, 128, 256, 512, 1024], "thorough": [8, 16, 32, 64, 128, 256, 512, 1024, 2048, 4096]}
+SWEEP_CFG = {"quick": ("MapDictSweep.cfg", 2400), "thorough": ("MapDictSweepBig.cfg", 8600)}   # cfg, NK
 
 
 def argclass(e):
@@ -243,7 +243,7 @@ def trace_validation(ctx, exe, corrupt=None, sweep=True):
     from vlib import x_c03
     rnd = random.Random(ctx.seed)
     nk, nv = BIG
-    nexec, nops = (6, 500) if ctx.tier == "quick" else (42, 900)
+    nexec, nops = (6, 500) if ctx.tier == "quick" else (24, 900)
     hist = [gen_history(rnd, nops, nk, nv) for k in range(nexec)]
     scfg, snk = SWEEP_CFG[ctx.tier]
     sweep_hist = [gen_sweep(SWEEP_SIZES[ctx.tier], snk, nv)]
@@ -264,7 +264,7 @@ def trace_validation(ctx, exe, corrupt=None, sweep=True):
             # the sweep runs with first-byte family 1 (keys straddle 0x80) for two classes and digits for one, rotating with the seed
             enc = "1" if (ci + ctx.seed) % 3 else "0"
             n, mx, ok = x_c03.record_validate(ctx, exe, cls, [cls, str(snk), str(nv), enc, "compact"], sweep_hist, INIT,
-                                              "MapDictTrace.tla", scfg, tag="sweep-" + cls)
+                                              "MapDictTrace.tla", scfg, tag="sweep-" + cls, env={"VH_WATCHDOG": "1500"})      # one long script: the per-script watchdog of 20 s does not fit
             total += n
             smax = max(smax, mx)
         ctx.cov["sweep_sizes"] = [m for n_ in SWEEP_SIZES[ctx.tier] for m in (n_ - 1, n_, n_ + 1)]
@@ -293,7 +293,7 @@ def run(ctx):
                        "verified transitions; state (full read-back), return value, representation invariants and heap balance are "
                        "compared after every step; plus random walks over verified transitions, TLC-validated recorded histories on "
                        "253-key maps whose keys use every byte value 1..255 as first / as last byte, and a TLC-validated size sweep "
-                       "(every operation at sizes n-1, n, n+1 for n = 8 .. 1024 (thorough .. 8192) at the position classes)")
+                       "(every operation at sizes n-1, n, n+1 for n = 8 .. 1024 (thorough .. 4096) at the position classes)")
     ctx.assumptions += ["keys and values are spif_str objects; key order is spif_str_comp (strcmp, unsigned bytes) on texts that order like the numbers",
                         "ASan build of the current tree (clang -O1)"]
 
